@@ -91,6 +91,8 @@ class C20(Prop):
     required_labels = {'quick': ['nontrivial=True', 'raised=True', 'short_window=True', 'cleared=True'],
                        'thorough': ['nontrivial=True', 'raised=True', 'short_window=True', 'cleared=True', 'sync=True']}
 
+    fuzz = {'thorough': {'runs': 20000, 'max_time': 60, 'procs': 4}}
+
     def strategy(self, tier):
         return _case()
 
